@@ -98,13 +98,23 @@ Proof. exact example_nonvacuous_lem. Qed.
 Require Import EmbossV.Bounds.Tight.
 
 (* For +, -, * over leaves with finite ranges, each leaf occurring once, both inferred bounds are
-   attained by some environment ($max is covered by correspondence only; ?: is refuted below). *)
+   attained by some environment (?: is refuted below; $max is tight_arith_max). *)
 Theorem tight_arith : forall G e,
   arith e = true -> NoDup (vars e) -> (forall i, In i (vars e) -> finite_leaf G i) ->
   forall a, bounds_of G e = Some (AInt a) ->
   exists l h, a.(lo) = Fin l /\ a.(hi) = Fin h /\ attains G e l /\ attains G e h.
 Proof. exact Tight.tight_arith. Qed.
 Print Assumptions tight_arith.
+
+(* The same with $max(...) of such expressions, nested arbitrarily: the inferred lower bound (the
+   largest of the arguments' minima) and upper bound (the largest of their maxima) are attained. *)
+Require Import EmbossV.Bounds.TightMax.
+Theorem tight_arith_max : forall G e,
+  arithm e = true -> NoDup (varsm e) -> (forall i, In i (varsm e) -> finite_leaf G i) ->
+  forall a, bounds_of G e = Some (AInt a) ->
+  exists l h, a.(lo) = Fin l /\ a.(hi) = Fin h /\ attainsm G e l /\ attainsm G e h.
+Proof. exact TightMax.tight_arith_max. Qed.
+Print Assumptions tight_arith_max.
 
 (* Finding F7: "tight for expressions without repeated variables" is false for ?: *)
 Theorem tight_choice_refuted :
